@@ -87,7 +87,13 @@ Inductive view_case :=
 | VRangesHas (incl : bool) (rs : list range) (probes lk : list Z) (rt : option (list Z)) (valid : bool)
 | VRangesLk (incl : bool) (rs : list range) (probes lk : list Z)
 | VRangesRt (incl : bool) (rs : list range) (probes rt : list Z)
-| VRangesValid (incl : bool) (rs : list range) (valid : bool).
+| VRangesValid (incl : bool) (rs : list range) (valid : bool)
+(* TextName() of a message-typed field: the raw facts, the names, what the linker's descriptor says, and for the
+   runtime (None when it rejected the file) its text name, same_file, same_scope as observed on its descriptors, and
+   the plugin's value of the guard scopes_by_name *)
+| VTextName (f : field) (nm : fnames) (lk : string) (rt : option (string * bool * bool)) (guard : bool)
+| VTextLk (f : field) (nm : fnames) (lk : string)
+| VTextRt (f : field) (nm : fnames) (t : string) (same_file same_scope : bool).
 
 Definition views_chk (c : view_case) : bool :=
   match c with
@@ -135,4 +141,12 @@ Definition views_chk (c : view_case) : bool :=
   | VRangesLk incl rs probes lk => list_Z_eqb (lk_has_set incl rs probes) lk
   | VRangesRt incl rs probes rt => match rt_has_set incl rs probes with Some m => list_Z_eqb m rt | None => false end
   | VRangesValid incl rs valid => Bool.eqb (ranges_valid_b incl rs) valid
+  | VTextName f nm lk rt guard =>
+      String.eqb (text_name f nm) lk
+      && match rt with
+         | Some (t, sf, ss) => String.eqb (rt_text_name f nm sf ss) t && Bool.eqb (scopes_by_name f nm sf ss) guard
+         | None => true
+         end
+  | VTextLk f nm lk => String.eqb (text_name f nm) lk
+  | VTextRt f nm t sf ss => String.eqb (rt_text_name f nm sf ss) t
   end.
